@@ -5,9 +5,17 @@ correspondence: (a) the unmodified pipecmd.c in harness/fmt_harness.c (guard pag
                     bytes, ASan/UBSan)                                   vs `pdshmodel rcmd model <variant>`
                 (b) the real `pdsh -R exec ... argdump ARGS` (argv seen by the helper, in hex)   vs the same
                 (c) the real pdsh under the preload shim with fake transports that log
-                    (type, host, user, rank, command)                    vs `pdshmodel rcmd model` (`reg` lines)
+                    (type, host, user, rank, command)                    vs `pdshmodel rcmd model` (`reg` lines:
+                    registry model fed by an independent expander; `regcli` lines: the same run computed from
+                    the command line alone by C02's model of opt.c + hostlist.c composed with the registry model)
+                (d) the real `pdsh -R rsh` against a scripted rsh peer on loopback (request bytes, back-connection
+                    to the announced stderr port, reserved ports held busy by the check)   vs `writes` lines
+                (e) sshcmd.c compiled per run with a fake ssh first in PATH               vs `ssh` lines
+                (f) the unmodified xrcmd.c in harness/xrcmd_harness.c with a scripted network (busy ports, connect
+                    results, sleep, xpoll, accept, peer's reply), every call on its sockets   vs `xr` lines
 oracle:         the same observations vs `pdshmodel rcmd spec` (token grammar / first annotated word /
-                defaults chain / rank = position); the command text must arrive verbatim
+                defaults chain / rank = position / four NUL-terminated fields / Exec/XrcmdSpec.lean `meets`);
+                the command text must arrive verbatim
 """
 import itertools
 import json
@@ -37,10 +45,12 @@ MANIFEST = dict(
          "specification (Exec/Spec.lean, Opt/RcmdSpec.lean).",
     design_ref="DESIGN.md section 5 C09, section 6 D10 D11 F09-2BR, appendix A.2 A.4",
     note="Lean 4.33 kernel; axioms propext/Classical.choice/Quot.sound at most; hand-written models tied to "
-         "pipecmd.c/opt.c/rcmd.c/dsh.c by differential execution of code built from /repo's working tree; host "
-         "expansion (hostlist.c) is a parameter of the registry model and is supplied by an independent Python "
-         "expander for simple names and bracket ranges; the rsh wire request is exercised against a scripted peer on "
-         "127.9.17.1-4:514 when the sandbox allows listening there (skipped with a note otherwise)")
+         "pipecmd.c/opt.c/rcmd.c/dsh.c/xrcmd.c by differential execution of code built from /repo's working tree; host "
+         "expansion (hostlist.c) is a parameter of the registry model, supplied twice per case: by an independent "
+         "Python expander and by C02's Lean model of opt.c + hostlist.c (composed run, must agree); the rsh wire "
+         "request is exercised against a scripted peer on the first free group of loopback addresses "
+         "127.9.17.1-4 / 127.19.X.1-4 port 514 (skipped with a note only if none can be bound), xrcmd's connection "
+         "set-up additionally in-process with a scripted network")
 
 ALPHA = "%hunxa"
 SAN_ENV = dict(os.environ, ASAN_OPTIONS="detect_leaks=0:handle_segv=0:allow_user_segv_handler=1")
@@ -1417,8 +1427,12 @@ def run(ctx):
                    "argument vectors with empty and %-terminated members; (b) pdsh -R exec with an argv-dumping helper; "
                    "(c) command lines mixing plain / user@ / type:user@ / type: words over overlapping host sets "
                    "(several -w, comma lists, ranges, zero padding, rare two-bracket words), -l, -R, PDSH_RCMD_TYPE, -x, "
-                   "malformed words, unknown types, with 3-6 fake transports loaded; (d) pdsh -R rsh against a scripted "
-                   "peer on loopback recording the request bytes; non-trivial = argument containing "
+                   "malformed words, unknown types, with 3-6 fake transports loaded, preceded by ~260 pinned cases "
+                   "(every order of overlapping words, prefix-related and zero-padded names, two-bracket words, every "
+                   "source of the default transport, user names at the length limit, rank after exclusion); (d) pdsh -R "
+                   "rsh against a scripted peer on loopback recording the request bytes: busy reserved ports, user "
+                   "shapes, every request length around each buffer size, random; (f) xrcmd.c in a scripted network: "
+                   "busy-port sets x connect scripts x accept/poll/reply outcomes; non-trivial = argument containing "
                    "'%' / command line with two annotated words or an annotated word over a repeated host; distinct by text"}
     dist = {"fmt": 0, "args": 0, "cli": 0, "reg": 0, "reg_fatal": 0, "reg_nodomain": 0, "nodomain": 0, "offenders": {},
             "branches": {}}
@@ -1457,11 +1471,16 @@ def run(ctx):
         LEVEL, cov,
         assumptions=["argument strings are NUL-free C strings; what lies behind the terminator is part of the case",
                      "host expansion is supplied by an independent expander (simple names, one bracket pair with "
-                     "ranges/lists/zero padding; two-bracket words only to witness F09-2BR)",
+                     "ranges/lists/zero padding; two-bracket words only to witness F09-2BR) AND by C02's hostlist model",
+                     "every -l but the last is within the user-name limit; write(2) on a connected socket succeeds",
+                     "rresvport/connect/xpoll/accept are parameters of the xrcmd model (scripted in part (f), the real "
+                     "kernel in part (d))",
                      "excluded hosts occur exactly once in the target list (duplicate exclusion is C02's subject)",
                      "rank fits an int; at most 32 targets per run (one batch of threads)"],
         trusted_base=["Lean 4.33 kernel", "axioms: propext, Classical.choice, Quot.sound at most (audited per theorem)",
                       "hand-written models Exec/Format.lean, Opt/Rcmd.lean tied to the code by differential execution",
                       "Gen/Modopt.lean regenerated from /repo (RCMD_RANK_LIST)",
-                      "harness/fmt_harness.c, argdump.c, preload_shim.c, modtmpl.c, vlib/preload.py, gcc, ASan/UBSan"],
+                      "Gen/Dsh.lean (LINEBUFSIZE), Gen/Hostlist.lean (probed variant of hostlist.c for the composed run)",
+                      "harness/fmt_harness.c, xrcmd_harness.c, argdump.c, preload_shim.c, modtmpl.c, vlib/preload.py, gcc, "
+                      "ASan/UBSan"],
         checker_cmd="lake build PdshVerif.Props.C09 && #print axioms on every theorem of Props/C09.lean")
